@@ -145,6 +145,73 @@ func Laws(r *vh.Rng, in Inst, rep *vh.Report, n int) {
 			var base kyber.Point
 			if bp, _ := vh.Try(func() { base = np().Base() }); !bp {
 				check("implicit-base", np().Mul(sa, nil), np().Mul(sa, base), ops())
+				// every Base()/Null() is an object of its own: overwriting one leaves the next intact
+				keep := base.Clone()
+				base.Add(base, P)
+				base.Neg(base)
+				base.Mul(sb, base)
+				check("base-after-overwriting-an-earlier-base", np().Base(), keep, ops())
+				check("implicit-base-after-overwriting-an-earlier-base", np().Mul(sa, nil), np().Mul(sa, keep), ops())
+			}
+			o1 := np().Null()
+			o1.Add(o1, Q)
+			o1.Mul(sb, o1)
+			check("null-after-overwriting-an-earlier-null", np().Null(), O, ops())
+			// a result is an object of its own: overwriting it leaves the operands intact, and conversely
+			for _, mk := range []struct {
+				name string
+				f    func() kyber.Point
+			}{{"neg", func() kyber.Point { return np().Neg(P) }}, {"clone", func() kyber.Point { return P.Clone() }}, {"set", func() kyber.Point { return np().Set(P) }},
+				{"add-null", func() kyber.Point { return np().Add(P, np().Null()) }}, {"mul-one", func() kyber.Point { return np().Mul(g.Scalar().One(), P) }}, {"sub-null", func() kyber.Point { return np().Sub(P, np().Null()) }}} {
+				keepP := np()
+				if bb, err := P.MarshalBinary(); err != nil || keepP.UnmarshalBinary(bb) != nil {
+					break
+				}
+				res := mk.f()
+				avt(in, res)
+				keepR := np()
+				if bb, err := res.MarshalBinary(); err != nil || keepR.UnmarshalBinary(bb) != nil {
+					break
+				}
+				res.Add(res, Q)
+				res.Neg(res)
+				res.Mul(sb, res)
+				check("operand-after-overwriting-result-of-"+mk.name, P, keepP, ops())
+				res2 := mk.f()
+				avt(in, res2)
+				Pc := P.Clone()
+				avt(in, Pc)
+				res3 := func() kyber.Point {
+					switch mk.name {
+					case "neg":
+						return np().Neg(Pc)
+					case "clone":
+						return Pc.Clone()
+					case "set":
+						return np().Set(Pc)
+					case "add-null":
+						return np().Add(Pc, np().Null())
+					case "mul-one":
+						return np().Mul(g.Scalar().One(), Pc)
+					}
+					return np().Sub(Pc, np().Null())
+				}()
+				Pc.Add(Pc, R)
+				Pc.Neg(Pc)
+				check("result-of-"+mk.name+"-after-overwriting-operand", res3, keepR, ops())
+				_ = res2
+			}
+			// scalar constants likewise
+			one := g.Scalar().One()
+			one.Add(one, sa)
+			one.Mul(one, sb)
+			zero := g.Scalar().Zero()
+			zero.Sub(zero, sb)
+			rep.Dist("law:scalar-constants-after-overwriting")
+			if vh.ScalarVal(g.Scalar().One()).Cmp(big.NewInt(1)) != 0 || vh.ScalarVal(g.Scalar().Zero()).Sign() != 0 {
+				o := ops()
+				o["group"] = in.Name
+				rep.Fail("C01/"+in.Name+"/scalar-constants-after-overwriting", "One()/Zero() no longer return 1/0 after an earlier One()/Zero() result was overwritten", o)
 			}
 		})
 		if pn && !unsupported(msg) {
@@ -194,6 +261,47 @@ func PairingLaws(r *vh.Rng, ps PSuite, rep *vh.Report, n int) {
 			check("additive-right", s.Pair(P, s.G2().Point().Add(Q, Q2)), gt.Point().Add(s.Pair(P, Q), s.Pair(P, Q2)), ops())
 			check("identity-left", s.Pair(s.G1().Point().Null(), Q), gt.Point().Null(), ops())
 			check("identity-right", s.Pair(P, s.G2().Point().Null()), gt.Point().Null(), ops())
+			// a pairing result is an object of its own: overwriting it changes no later result
+			for _, pq := range [][2]kyber.Point{{P, Q}, {s.G1().Point().Null(), Q}, {P, s.G2().Point().Null()}} {
+				e1 := s.Pair(pq[0], pq[1])
+				keep := e1.Clone()
+				e1.Add(e1, e)
+				e1.Neg(e1)
+				e1.Mul(sa, e1)
+				check("pair-after-overwriting-an-earlier-result", s.Pair(pq[0], pq[1]), keep, ops())
+				check("gt-null-after-overwriting-a-pairing-result", gt.Point().Null(), s.Pair(s.G1().Point().Null(), s.G2().Point().Null()), ops())
+				e1.Null()
+				check("pair-after-nulling-an-earlier-result", s.Pair(pq[0], pq[1]), keep, ops())
+			}
+			// a point decoded in place over one that was already paired is paired as the new point
+			for _, side := range []int{0, 1} {
+				grp := []kyber.Group{s.G1(), s.G2()}[side]
+				from, to := []kyber.Point{P, Q}[side], []kyber.Point{P2, Q2}[side]
+				obj := from.Clone()
+				pr := func(x kyber.Point) kyber.Point {
+					if side == 0 {
+						return s.Pair(x, Q)
+					}
+					return s.Pair(P, x)
+				}
+				_ = pr(obj)
+				bb, err := to.MarshalBinary()
+				if err == nil && obj.UnmarshalBinary(bb) == nil {
+					check(fmt.Sprintf("pair-after-decoding-in-place-G%d", side+1), pr(obj), pr(to), ops())
+				}
+				_ = pr(obj)
+				obj.Set(from)
+				check(fmt.Sprintf("pair-after-set-in-place-G%d", side+1), pr(obj), pr(from), ops())
+				_ = pr(obj)
+				obj.Neg(obj)
+				check(fmt.Sprintf("pair-after-neg-in-place-G%d", side+1), pr(obj), pr(grp.Point().Neg(from)), ops())
+				_ = pr(obj)
+				obj.Add(obj, to)
+				check(fmt.Sprintf("pair-after-add-in-place-G%d", side+1), pr(obj), pr(grp.Point().Add(grp.Point().Neg(from), to)), ops())
+				_ = pr(obj)
+				obj.Mul(sb, obj)
+				check(fmt.Sprintf("pair-after-mul-in-place-G%d", side+1), pr(obj), pr(grp.Point().Mul(sb, grp.Point().Add(grp.Point().Neg(from), to))), ops())
+			}
 			// ValidatePairing(p1,p2,i1,i2) <=> Pair(p1,p2) == Pair(i1,i2)
 			O1, O2 := s.G1().Point().Null(), s.G2().Point().Null()
 			for _, quad := range [][4]kyber.Point{{aP, bQ, s.G1().Point().Mul(s.G1().Scalar().Mul(sa, sb), P), Q}, {P, Q, P2, Q2}, {aP, Q, P, s.G2().Point().Mul(sa, Q)}, {P, Q, P, Q2},
